@@ -54,6 +54,8 @@ type World struct {
 	Behav     map[string]*NodeBehaviour
 	Coop      bool // cooperative kubelet: ignore hostile knobs
 	nestSteps []string
+	// TplLabels["ns/name"]: labels the user puts on every pod template of that ExtendedDaemonSet
+	TplLabels map[string]map[string]string
 	// phaseStart: virtual instant at which the current cooperative phase began
 	phaseStart time.Time
 	// ActsAfterFailedRead: see observeActsAfterFailedRead
@@ -427,7 +429,25 @@ func (w *World) envDelete(p *corev1.Pod) {
 // ---- user actions ---------------------------------------------------------------------------------
 
 // CreateEDS creates an EDS through the user client (status stripped by the server).
+// withTplLabels adds the labels every template of that ExtendedDaemonSet carries in this world (TplLabels).
+func (w *World) withTplLabels(ns, name string, tpl *corev1.PodTemplateSpec) {
+	extra := w.TplLabels[ns+"/"+name]
+	if len(extra) == 0 {
+		return
+	}
+	l := map[string]string{}
+	for k, v := range tpl.Labels {
+		l[k] = v
+	}
+	for k, v := range extra {
+		l[k] = v
+	}
+	tpl.Labels = l
+}
+
 func (w *World) CreateEDS(e *v1.ExtendedDaemonSet) {
+	e = e.DeepCopy()
+	w.withTplLabels(e.Namespace, e.Name, &e.Spec.Template)
 	if err := w.User.Create(nil, e.DeepCopy()); err != nil {
 		panic(err)
 	}
@@ -437,6 +457,7 @@ func (w *World) CreateEDS(e *v1.ExtendedDaemonSet) {
 
 // SetTemplate edits spec.template of an EDS.
 func (w *World) SetTemplate(ns, name string, tpl corev1.PodTemplateSpec) {
+	w.withTplLabels(ns, name, &tpl)
 	w.S.Mutate(simapi.KindEDS, ns, name, func(o client.Object) { o.(*v1.ExtendedDaemonSet).Spec.Template = *tpl.DeepCopy() })
 	w.tracef("user: set template of %s/%s to %s", ns, name, kit.MarkerOfTemplate(&tpl))
 	w.Mon.OnTemplateEdit(ns, name)
